@@ -17,6 +17,7 @@ import (
 	"net/http"
 	"net/http/httptest"
 	"net/textproto"
+	"net/url"
 	"os"
 	"sort"
 	"strings"
@@ -281,6 +282,35 @@ var menu = []call{
 		r, err := c.PostP(ctx, &api.P{ID: api.NewOptString("two"), Pattern0Props: api.PPattern0{"xyzzzz": 3}, Pattern1Props: api.PPattern1{"123": "n"}})
 		return show(r, err)
 	}},
+	// per-request options that take something by reference: the caller's server URL (private to the
+	// call under the scheduler and compared before / after; one value shared by all goroutines in the
+	// free-running race pass).  One URL without and one with a trailing slash.
+	{"getE with the caller's server URL", func(ctx context.Context, c *api.Client) string {
+		u := &url.URL{Scheme: "http", Host: "x"}
+		if vs.Free {
+			u = sharedServerURL
+		}
+		before := *u
+		r, err := c.GetE(ctx, api.GetEParams{ID: "abcd", Q: 9}, api.WithServerURL(u))
+		out := show(r, err)
+		if !vs.Free && *u != before {
+			out += fmt.Sprintf(" INPUT-MODIFIED: the caller's URL is now %+v", *u)
+		}
+		return out
+	}},
+	{"getE with the caller's server URL ending in a slash", func(ctx context.Context, c *api.Client) string {
+		u := &url.URL{Scheme: "http", Host: "x", Path: "/"}
+		if vs.Free {
+			u = sharedServerURLSlash
+		}
+		before := *u
+		r, err := c.GetE(ctx, api.GetEParams{ID: "abcde", Q: 10}, api.WithServerURL(u))
+		out := show(r, err)
+		if !vs.Free && *u != before {
+			out += fmt.Sprintf(" INPUT-MODIFIED: the caller's URL is now %+v", *u)
+		}
+		return out
+	}},
 	{"postT text", func(ctx context.Context, c *api.Client) string {
 		r, err := c.PostT(ctx, api.PostTReq{Data: strings.NewReader("plain text body")})
 		if err != nil {
@@ -292,6 +322,11 @@ var menu = []call{
 }
 
 var sharedPartHeader = textproto.MIMEHeader{"Content-Type": {"text/x-verif"}}
+
+var (
+	sharedServerURL      = &url.URL{Scheme: "http", Host: "x"}
+	sharedServerURLSlash = &url.URL{Scheme: "http", Host: "x", Path: "/"}
+)
 
 type kase struct {
 	Threads    [][]string `json:"threads_and_their_calls"`
